@@ -468,9 +468,9 @@ func blockPos(b *ssa.BasicBlock) token.Pos {
 
 type mpQuery struct {
 	fn      *ssa.Function
-	start   ssa.Instruction                // nil: armed from entry
-	isEvent func(ssa.Instruction) bool     // passing one satisfies the obligation on that path
-	target  func(ssa.Instruction) bool     // nil: success return
+	start   ssa.Instruction            // nil: armed from entry
+	isEvent func(ssa.Instruction) bool // passing one satisfies the obligation on that path
+	target  func(ssa.Instruction) bool // nil: success return
 	w       *World
 	// armFrom/armTo: arm when the edge armFrom->armTo is traversed (instead of at `start`)
 	armFrom, armTo *ssa.BasicBlock
